@@ -263,13 +263,22 @@ pub(crate) fn handle_submit(
         state.add_job(job);
     }
 
+    let now = Utc::now();
     let new_tasks = submit_job_desc(
         &mut state,
         &senders.server_control,
         job_id,
         submit_desc,
-        Utc::now(),
+        now,
     );
+    if new_job {
+        // A (closed) job that was created without any task is completed right now;
+        // no task event will ever come that would trigger the check.
+        state
+            .get_job_mut(job_id)
+            .unwrap()
+            .check_termination(senders, now);
+    }
     senders.autoalloc.on_job_submit(job_id);
 
     let job_detail = state
